@@ -47,7 +47,8 @@ vars == <<pts, job, pc, b, q, n, xy, out>>
 Undef == 99
 Input == IF job = 1 THEN pts ELSE IF job = 2 THEN Rev(pts) ELSE MirX(pts)
 
-Init == /\ pts \in IF Slice THEN { p \in Tuples(R, P2Origin) : p[1] = <<1, 0, 0>> } ELSE Tuples(R, P2Origin)
+Init == /\ \E a \in (IF Slice THEN {<<1, 0, 0>>} ELSE Pts(R)), o \in (IF P2Origin THEN {Zero3} ELSE Pts(R)),
+              c \in Pts(R), d \in Pts(R) : pts = <<a, o, c, d>>
         /\ job = 1 /\ pc = "start"
         /\ b = <<>> /\ q = <<>> /\ n = <<>> /\ xy = <<>> /\ out = <<>>
 
@@ -152,6 +153,8 @@ OracleRotation    == AtInput /\ NonDegenerate(pts) => /\ IUPACCell(RotZ(pts)) = 
                                            /\ IUPACCell(RotX(pts)) = IUPACCell(pts)
 OracleTranslation == AtInput /\ NonDegenerate(pts) => IUPACCell(Shift(pts, <<1, -2, 3>>)) = IUPACCell(pts)
 OracleNeverOrigin == AtInput /\ NonDegenerate(pts) => ~(XNum(pts) = 0 /\ Trip(pts) = 0)
+\* the gap lemma's premises hold on the lattice: open-octant tuples keep clear of the axis directions
+OracleAxisGap     == AtInput /\ NonDegenerate(pts) => AxisGapOK(pts) /\ (IUPACCell(pts) % 2 = 1 => AParam(pts) >= 1 /\ X2Param(pts) >= 1)
 \* every one of the 16 cells is inhabited on the lattice (evaluated once)
 ASSUME P2Origin => { IUPACCell(p) : p \in NonDegTuples(1, TRUE) } = Cells
 =============================================================================
